@@ -648,22 +648,29 @@ def run_scenario(ck, hbin, hchk, sc, ops, tag, seedtag):
                                    script=hdr + [line], observed=[o], model=[m])
             if routine == "pshort":
                 # the driver prints the model of the current code, then the model of the code before fix b725c3169 (F55)
+                # the driver prints the model of the tree's code (fixes F55 + F170), then the code before fix F55, then the code before
+                # fix F170 (checkMotion in sampling order).  Only the first is accepted.
                 mc, _, mo = m.partition(" | old ")
-                mo, _, mord = mo.partition(" | ord ")
-                mc, mo, mord = canon(mc), canon(mo), canon(mord)
+                mo, _, msamp = mo.partition(" | sampling ")
+                mc, mo, msamp = canon(mc), canon(mo), canon(msamp)
                 if mc == "idx-error":
                     issues.append(idx_err())
-                elif impl_c != mc and impl_c == mord:
-                    # the tree validates in path order (proposed fix F170 applied): the transcript holds the ORDERED pair
-                    ck.count("pshort:agrees-with-the-F170-fixed-variant")
-                    issues += pending_fails.get(line, [])
                 elif impl_c == mc:
                     if mc != mo:
                         ck.count("pshort:input-on-which-the-pre-F55-code-differs")
+                    if mc != msamp:
+                        ck.count("pshort:input-on-which-the-pre-F170-code-differs")
                     issues += pending_fails.get(line, [])
+                elif impl_c == msamp and msamp != "idx-error":
+                    issues += pending_fails.get(line, [])
+                    issues.append(dict(kind="regress", fid="F170", routine="pshort", clause="only_validated_motions",
+                                       cls="checkMotion in sampling order (behaviour of the code before fix 7afd3abe1)",
+                                       detail="partialShortcutPath behaves like the code before fix F170: checkMotion(s0, s1) is asked in SAMPLING order, "
+                                              "the motion spliced into the path is (earlier, later): the recorded transcript holds the reversed pair",
+                                       script=hdr + [line], observed=[o], model=[m]))
                 elif mo == "idx-error" or impl_c == mo:
                     issues.append(dict(kind="regress", fid="F55", routine="pshort", clause="indices_in_range" if mo == "idx-error" else "finite" if " nan" in mo else "lockstep",
-                                       cls="snap test misses an exact hit (behaviour of the code before fix b725c3169)",
+                                       cls="snap test misses an exact hit (behaviour of the code before fix f9a435dd6)",
                                        detail="partialShortcutPath behaves like the code before fix F55 (snap-to-vertex test `<`): " +
                                               ("the implementation differs from the model of the current code on an input where the pre-fix code reads dists[pos+1] / states[pos+1] out of range (a sample at the end of the path)" if mo == "idx-error"
                                                else "a sample exactly on a vertex is not snapped" + (" (t = 0/0: NaN state in the path)" if " nan" in mo else "")),
@@ -1543,7 +1550,12 @@ MANIFEST = {
             "densification are tied to PathSimplifier.cpp / PathGeometric.cpp by bit-exact lock-step runs (scripted random draws and raw "
             "samples, recorded checkMotion / isValid transcript as oracle). smoothBSpline, perturbPath, findBetterGoal, simplify, "
             "simplifyMax and PathHybridization as whole routines are covered by trace conformance only (seeded runs, recorded checkMotion "
-            "transcript, the property evaluated on the real outputs); their splice / graph models are proved but not run against the code.",
+            "transcript, the property evaluated on the real outputs); their splice / graph models are proved but not run against the code. "
+            "Since rounds 4-5: smoothBSpline, findBetterGoal and perturbPath are modelled as whole routines and run in lock-step (scripted "
+            "draws / sampler / goal region), simplify's schedule is modelled and proved by composition over the concrete routine models, "
+            "the oracle's validated-motions classification is direction-aware (checkMotion(a,b), not (b,a)), a direction-sensitive "
+            "validator (one-way zone) is part of the scenarios, and partialShortcutPath's sampling-order validation is the open finding "
+            "F170 (witness theorem + proved repaired variant).",
     "note": "Trusted: Lean kernel, the three standard axioms, the hand-written models outside the explored scripts, the harness "
             "(which compiles the two source files under test into its own translation unit, proxies the private rng_ and installs a "
             "scripted sampler), the Python oracle's geometry, boost's Dijkstra (assumed to return a shortest walk). IEEE rounding is "
